@@ -275,14 +275,14 @@ func init() {
 
 func runC07(c *Ctx) {
 	c.U0()
-	c.ruleR07a("R07a write-only-fresh(nodes)", nil)
+	c.ruleR07a("R07a write-only-fresh(nodes)", 10, nil)
 	c.ruleR07b()
 	c.ruleCacheIdentity("R07c cache-stores-what-it-returns")
 }
 
 // ruleR07a: write-only-fresh over parser scope; filter restricts the protected storage further (used by C01/C03).
-func (c *Ctx) ruleR07a(rule string, filter func(*own.Effect) bool) {
-	c.R.Rule(rule, "every write to node fields, node-list elements and cache results in Parser scope targets storage allocated in the same activation (mutator summaries substituted)", 10)
+func (c *Ctx) ruleR07a(rule string, min int, filter func(*own.Effect) bool, pkgs ...string) {
+	c.R.Rule(rule, "every write to node fields, node-list elements and cache results in Parser scope targets storage allocated in the same activation (mutator summaries substituted)", min)
 	a := c.Own()
 	if !a.Converged() {
 		c.R.Undecided(rule, "fixpoint", "-", "-", "ownership analysis did not converge")
@@ -301,6 +301,19 @@ func (c *Ctx) ruleR07a(rule string, filter func(*own.Effect) bool) {
 	for _, fn := range c.S.Sorted(c.S.Parser) {
 		if fn.Synthetic != "" {
 			continue
+		}
+		if len(pkgs) > 0 {
+			in := false
+			if tp := load.PkgOf(fn); tp != nil {
+				for _, k := range pkgs {
+					if c.P.Rel(tp.Path()) == k {
+						in = true
+					}
+				}
+			}
+			if !in {
+				continue
+			}
 		}
 		c.judgeWrites(rule, fn, prot)
 	}
